@@ -98,6 +98,12 @@ func vfCheckInvariants(a *Association, side int, res *vfRes, ev int) {
 		}
 	}
 
+	// 2b. blocking-write gate: it is closed by the writer that queues data and opened by the call that drains
+	// the pending queue, both under a.lock; closed with nothing pending means no one will ever open it (C02: permanently stuck)
+	if a.blockWrite && a.writePending && a.pendingQueue.size() == 0 {
+		res.violate("C02", "inv/gate/closed-empty", "M-INV side %d ev %d: blocking-write gate is closed (writePending) while the pending queue is empty: nothing will reopen it, every later write blocks until its deadline", side, ev)
+	}
+
 	// 3. RACK list
 	cnt := 0
 	var prev *chunkPayloadData
